@@ -81,9 +81,11 @@ DateArgErr(c, date) ==
 \* btokCVCWrap(cvc, privkey): Check(cvc) (the public key derived from privkey when pubkey_len = 0)
 WrapErr(c, k) == CheckErr(c)
 \* btokCVCUnwrap(cert, 0, 0): well-formed (by construction here) and Check(content)
+\* (a name that is not a PrintableString of 8..12 characters cannot even be decoded: format error)
 Unwrap0Err(cert) == CheckErr(cert.c)
+                    \cup (IF NameOk(cert.c.authority) /\ NameOk(cert.c.holder) THEN {} ELSE {"BAD_FORMAT"})
 \* btokCVCUnwrap(cert, pubkey): Check(content) and the signature verifies under pubkey
-UnwrapKErr(cert, p) == SigErr(cert, p) \cup CheckErr(cert.c)
+UnwrapKErr(cert, p) == SigErr(cert, p) \cup Unwrap0Err(cert)
 \* btokCVCIss(cvc, certa, privkeya): certa well-formed; Check2(cvc, cvca); cvca's public key matches privkeya
 IssErr(c, certa, ka) == Unwrap0Err(certa) \cup Check2Err(c, certa.c) \cup KeypairErr(ka, certa.c.pub)
 \* btokCVCVal(cert, certa, date)
